@@ -109,6 +109,9 @@ pub(crate) fn validate(input: &DataType) -> Result<()> {
     } else {
         let mut root_err = syn::Error::new(Span::call_site(), "Cannot expand o2o macro");
 
+        // HashMap iteration order changes from run to run; report diagnostics in a stable order
+        let mut errors: Vec<(String, Span)> = errors.into_iter().collect();
+        errors.sort_by(|a, b| a.0.cmp(&b.0));
         errors.iter().for_each(|(err, sp)| root_err.combine(syn::Error::new(*sp, err)));
 
         Err(root_err)
